@@ -4,8 +4,8 @@ package main
 // reachability predicate, states are merged at joins, obligations are collected in Gen.
 
 import (
+	"strconv"
 	"fmt"
-	"os"
 	"go/token"
 	"go/types"
 	"sort"
@@ -81,6 +81,12 @@ type Frame struct {
 	rangeIt  map[ssa.Value]*mapRange
 	staticFns    map[ssa.Value]*ssa.Function
 	cellClosures map[string]*closureVal
+
+	// position of the instruction being executed (for spec name resolution in inlined callees)
+	curBlock *ssa.BasicBlock
+	curIdx   int
+	// inlined frames: which inline-loop invariants of the top contract were used
+	usedInlineLoops map[string]bool
 }
 
 type closureVal struct {
@@ -109,6 +115,20 @@ func (g *Gen) newFrame(fn *ssa.Function, parent *Frame) *Frame {
 	f.fc = g.cs.Funcs[contractKeyOf(fn)]
 	f.analyzeLoops()
 	return f
+}
+
+// matchesCallee: name is a suffix of the callee's display name or of its closure alias.
+func matchesCallee(fn *ssa.Function, name string) bool {
+	if strings.HasSuffix(fnDisplay(fn), name) {
+		return true
+	}
+	if a := closureAlias(fn); a != "" {
+		a = strings.TrimPrefix(a, modulePath)
+		a = strings.TrimPrefix(a, "pkg/")
+		a = strings.Replace(a, "::", ".", 1)
+		return strings.HasSuffix(a, name)
+	}
+	return false
 }
 
 func contractKeyOf(fn *ssa.Function) string {
@@ -185,6 +205,20 @@ func (f *Frame) analyzeLoops() {
 		li.ordinal = i + 1
 		if f.fc != nil {
 			li.lc = f.fc.Loops[i+1]
+		}
+		if f != f.top && f.top.fc != nil && f.top.fc.InlineLoops != nil {
+			// invariant supplied by the function under verification for a loop of an inlined callee
+			for key, lc := range f.top.fc.InlineLoops {
+				j := strings.LastIndex(key, "#")
+				if key[j+1:] != strconv.Itoa(i+1) || !matchesCallee(f.fn, key[:j]) {
+					continue
+				}
+				li.lc = lc
+				if f.top.usedInlineLoops == nil {
+					f.top.usedInlineLoops = map[string]bool{}
+				}
+				f.top.usedInlineLoops[key] = true
+			}
 		}
 		for b := range li.body {
 			f.inLoop[b] = append(f.inLoop[b], li)
@@ -377,7 +411,25 @@ func (f *Frame) specEnv(cur *State, at *ssa.BasicBlock, atIdx int, phiSubst map[
 		e.vars[k] = v
 	}
 	e.locals = func(name string, env *SpecEnv) (T, bool) {
-		return f.resolveLocal(name, at, atIdx, phiSubst, env)
+		if v, ok := f.resolveLocal(name, at, atIdx, phiSubst, env); ok {
+			return v, true
+		}
+		// inlined callee: the names of the calling frames at their call instruction
+		for c, p := f, f.parent; p != nil; c, p = p, p.parent {
+			_ = c
+			if v, ok := p.params[name]; ok {
+				return v, true
+			}
+			if v, ok := p.lets[name]; ok {
+				return v, true
+			}
+			if p.curBlock != nil {
+				if v, ok := p.resolveLocal(name, p.curBlock, p.curIdx, nil, env); ok {
+					return v, true
+				}
+			}
+		}
+		return T{}, false
 	}
 	if li == nil {
 		// outside loop invariants (post-conditions): the function's only range-over-map loop
@@ -447,16 +499,6 @@ func (f *Frame) resolveLocal(name string, at *ssa.BasicBlock, atIdx int, phiSubs
 		phi *ssa.Phi
 	}
 	var best *cand
-	better := func(c *cand) bool {
-		if best == nil {
-			return true
-		}
-		if c.b == best.b {
-			return c.idx > best.idx
-		}
-		// the deeper block in the dominator tree is the later one
-		return best.b.Dominates(c.b)
-	}
 	// Every value that some DebugRef (anywhere in the function) or phi comment associates with
 	// the variable is a candidate; the value of the variable at `at` is the candidate whose
 	// definition dominates `at` and is the latest in dominance order. (go/ssa attaches the
@@ -514,7 +556,6 @@ func (f *Frame) resolveLocal(name string, at *ssa.BasicBlock, atIdx int, phiSubs
 			best = c
 		}
 	}
-	_ = better
 	for _, b := range f.fn.Blocks {
 		for _, ins := range b.Instrs {
 			switch x := ins.(type) {
@@ -529,15 +570,6 @@ func (f *Frame) resolveLocal(name string, at *ssa.BasicBlock, atIdx int, phiSubs
 				if x.Comment == name {
 					consider(x, false, x)
 				}
-			}
-		}
-	}
-	if os.Getenv("GOVC_DEBUG") != "" {
-		fmt.Fprintf(os.Stderr, "resolveLocal %s at %v: best=%v\n", name, at, best)
-		if best != nil {
-			fmt.Fprintf(os.Stderr, "   v=%v (%T) block=%v idx=%d fn=%s instr=%v\n", best.v, best.v, best.b, best.idx, f.fn.String(), best.b.Instrs[best.idx])
-			for i, ins := range best.b.Instrs {
-				fmt.Fprintf(os.Stderr, "      %d: %v (%T)\n", i, ins, ins)
 			}
 		}
 	}
@@ -841,6 +873,7 @@ func (f *Frame) execBlock(b *ssa.BasicBlock, entrySt *State, entryReach string) 
 		if p := ins.Pos(); p.IsValid() {
 			f.curPos = p
 		}
+		f.curBlock, f.curIdx = b, idx
 		f.instr(b, bi, idx, ins)
 	}
 	bi.done = true
@@ -863,6 +896,12 @@ func (f *Frame) loopHeader(b *ssa.BasicBlock, bi *BInfo, li *loopInfo, phiEntry 
 			v, err := env.evalBool(c.Expr)
 			if err != nil {
 				g.resolutionFailure(f, fmt.Sprintf("loop %d invariant %d: %v", li.ordinal, i+1, err))
+				continue
+			}
+			if strings.HasPrefix(c.Label, "assumed:") {
+				// an environment assumption (typically: no aliasing with storage owned by others)
+				// that holds throughout the loop; listed in the evidence, never checked
+				g.assumeNote("assumed loop invariant of %s [%s]: %s", fnDisplay(f.top.fn), c.Label, c.Text)
 				continue
 			}
 			f.addObl("inv-entry", fmt.Sprintf("loop%d/%s", li.ordinal, clauseLabel(c, i)), bi.R, v.S, c.Text)
@@ -973,6 +1012,7 @@ func (f *Frame) loopModSet(h *ssa.BasicBlock, bi *BInfo, li *loopInfo, phiEntry 
 		if _, ok := ins.(*ssa.Phi); ok {
 			continue
 		}
+		f.curBlock, f.curIdx = h, idx
 		f.instr(h, hb, idx, ins)
 	}
 	hb.done = true
@@ -1073,7 +1113,18 @@ func (f *Frame) backEdge(from *ssa.BasicBlock, h *ssa.BasicBlock, cond string, s
 		}
 	}
 	env := f.specEnv(st, h, 0, subst, li)
+	// assumed invariants hold throughout the loop: they are hypotheses at the back edge too
+	for _, c := range li.lc.Invariants {
+		if strings.HasPrefix(c.Label, "assumed:") {
+			if v, err := env.evalBool(c.Expr); err == nil {
+				g.assert(sImp(cond, v.S))
+			}
+		}
+	}
 	for i, c := range li.lc.Invariants {
+		if strings.HasPrefix(c.Label, "assumed:") {
+			continue
+		}
 		v, err := env.evalBool(c.Expr)
 		if err != nil {
 			g.resolutionFailure(f, fmt.Sprintf("loop %d invariant %d: %v", li.ordinal, i+1, err))
